@@ -10,6 +10,7 @@ enumerates each domain, checks ranges and nestings on the definitions and export
 row is replayed into the public functions (1e-9).  Threshold ties that the property exempts are
 flagged by the spec and skipped."""
 import json
+import math
 import random
 
 import numpy as np
@@ -128,6 +129,13 @@ def run(tier, seed):
                 al = me.alignment
                 check("alignment.absolute_error", lambda: al.absolute_error(ref, est), [fr(o["median"]) * U, fr(o["mean"]) * U], d)
                 check("alignment.percentage_correct", lambda: al.percentage_correct(ref, est, window=w), [fr(o["pc"])], d)
+                # perceptual (karaoke) score: mean of a skew-normal density of the signed offsets (parameters from the docstring),
+                # evaluated here from the spec's offsets with erf/exp
+                def skew(x, a=1.12244251, loc=-0.22270315, scale=0.29779424):
+                    z = (x - loc) / scale
+                    return 2.0 / scale * math.exp(-0.5 * z * z) / math.sqrt(2 * math.pi) * 0.5 * (1.0 + math.erf(a * z / math.sqrt(2.0)))
+                check("alignment.karaoke_perceptual_metric", lambda: al.karaoke_perceptual_metric(ref, est),
+                      [sum(skew(x * U) for x in o["offsets"]) / (1.6857 * len(o["offsets"]))], d)
                 if o["haspcs"]:
                     kw = {} if i["dur"] == 0 else {"duration": i["dur"] * U}
                     check("alignment.percentage_correct_segments", lambda: al.percentage_correct_segments(ref, est, **kw), [fr(o["pcs"])], d)
@@ -160,7 +168,7 @@ def run(tier, seed):
         j_["_all"] = True
     brow = brow + jrow
     BU = 0.25
-    import math
+
     for k, r in enumerate(brow):
         if not thorough and (k + seed) % 4 and not r.get("_all"):
             continue
